@@ -58,16 +58,54 @@ theorem InvR.step {s s' : State} (h : Step s s') (hS : InvS s) (hF : InvF s) (hW
   | tick d =>
     obtain ⟨retReady, noRetGot, resG, resT, resF, resReady⟩ := hi hb
     constructor <;> intros <;> (try dsimp only at *) <;> first | assumption | grind
-  | set t v hidle hl hsc => refine InvR'.frame (hi hb) t _ rfl ?_ ?_ ?_ rfl ?_ (Nat.le_refl _) rfl <;> simp
-  | down t d hidle hl h1 hb' => refine InvR'.frame (hi hb) t _ rfl ?_ ?_ ?_ rfl ?_ (Nat.le_refl _) rfl <;> simp
-  | get t hidle => refine InvR'.frame (hi hb) t _ rfl ?_ ?_ ?_ rfl ?_ (Nat.le_refl _) rfl <;> simp
-  | waitFor t tau hidle h1 h2 => refine InvR'.frame (hi hb) t _ rfl ?_ ?_ ?_ rfl ?_ (Nat.le_refl _) rfl <;> simp
-  | reg t id hidle hs => refine InvR'.frame (hi hb) t _ rfl ?_ ?_ ?_ rfl ?_ (Nat.le_refl _) rfl <;> simp
-  | ready t hidle => refine InvR'.frame (hi hb) t _ rfl ?_ ?_ ?_ rfl ?_ (Nat.le_refl _) rfl <;> simp
+  | set t v hidle hl hsc => refine InvR'.frame (hi hb) t _ rfl ?_ ?_ (fun h => h) rfl (fun h => h) (Nat.le_refl _) rfl <;> simp
+  | down t d hidle hl h1 hb' => refine InvR'.frame (hi hb) t _ rfl ?_ ?_ (fun h => h) rfl (fun h => h) (Nat.le_refl _) rfl <;> simp
+  | get t hidle => refine InvR'.frame (hi hb) t _ rfl ?_ ?_ (fun h => h) rfl (fun h => h) (Nat.le_refl _) rfl <;> simp
+  | waitFor t tau hidle h1 h2 => refine InvR'.frame (hi hb) t _ rfl ?_ ?_ (fun h => h) rfl (fun h => h) (Nat.le_refl _) rfl <;> simp
+  | reg t id hidle hs => refine InvR'.frame (hi hb) t _ rfl ?_ ?_ (fun h => h) rfl (fun h => h) (Nat.le_refl _) rfl <;> simp
+  | ready t hidle => refine InvR'.frame (hi hb) t _ rfl ?_ ?_ (fun h => h) rfl (fun h => h) (Nat.le_refl _) rfl <;> simp
 
 theorem InvR.reach {s : State} (h : Reachable Init Step s) : InvR s := by
   induction h with
   | base hi => obtain ⟨n, hn, rfl⟩ := hi; exact InvR.init n
   | tail hr hst ih => exact InvR.step hst (InvS.reach hr) (InvF.reach hr) (InvW.reach hr) ih
+
+/-- `wait_for` returning `false` needs no NoWrap hypothesis: the code re-reads the clock itself -/
+def InvRF (s : State) : Prop :=
+  ∀ t b st to n, s.result t = some (.waited false b st to n) → b = true ∧ n ≤ s.now ∧ st ≤ n ∧ (n < 2 ^ 63 → st + to ≤ n)
+
+theorem InvRF.frame {s s' : State} (hi : InvRF s) (h4 : s.now ≤ s'.now) (h5 : s'.result = s.result) : InvRF s' := by
+  intro t b st to n h
+  rw [h5] at h
+  obtain ⟨h1, h2, h3, h6⟩ := hi t b st to n h
+  exact ⟨h1, by omega, h3, h6⟩
+
+set_option maxHeartbeats 4000000 in
+theorem InvRF.step {s s' : State} (h : Step s s') (hW : InvW s) (hi : InvRF s) : InvRF s' := by
+  obtain ⟨_, _, _, _, _, _, _, retF⟩ := hW
+  cases h with
+  | act addr t h x l hst =>
+    cases hpc : s.pc t <;> simp only [stepThread, waitLoop, hpc] at hst
+    all_goals (try split at hst)
+    all_goals (try split at hst)
+    all_goals (try split at hst)
+    all_goals (try simp only [Option.some.injEq, Prod.mk.injEq, reduceCtorEq] at hst)
+    all_goals (try (obtain ⟨rfl, rfl⟩ := hst))
+    all_goals (try (exfalso; assumption))
+    all_goals (first
+      | exact InvRF.frame hi (Nat.le_refl _) rfl
+      | (intro u b st to n hu; dsimp only at hu ⊢; have hiu := hi u b st to n; grind [upd_apply, setRet]))
+  | tick d => intro u b st to n hu; obtain ⟨h1, h2, h3, h6⟩ := hi u b st to n hu; exact ⟨h1, by dsimp only; omega, h3, h6⟩
+  | set t v hidle hl hsc => exact InvRF.frame hi (Nat.le_refl _) rfl
+  | down t d hidle hl h1 hb' => exact InvRF.frame hi (Nat.le_refl _) rfl
+  | get t hidle => exact InvRF.frame hi (Nat.le_refl _) rfl
+  | waitFor t tau hidle h1 h2 => exact InvRF.frame hi (Nat.le_refl _) rfl
+  | reg t id hidle hs => exact InvRF.frame hi (Nat.le_refl _) rfl
+  | ready t hidle => exact InvRF.frame hi (Nat.le_refl _) rfl
+
+theorem InvRF.reach {s : State} (h : Reachable Init Step s) : InvRF s := by
+  induction h with
+  | base hi => obtain ⟨n, hn, rfl⟩ := hi; intro t b st to n h; cases n <;> simp [State.init] at h
+  | tail hr hst ih => exact InvRF.step hst (InvW.reach hr) ih
 
 end Babylon.Future
